@@ -177,9 +177,9 @@ def run(ctx):
     off = ctx.seed
     L = ("LawsHoldOnSpec",)
     if ctx.quick:
-        plan = [("<=4 revisions, ghost", hc.gen_cfg(1, 4, 2, 1, 2, off), L, True, True),
-                ("5 revisions", hc.gen_cfg(5, 5, 2, 0, 20, off), L, True, False)]
-        remote_every, pack_every = 8, 8
+        plan = [("<=4 revisions, ghost", hc.gen_cfg(1, 4, 2, 1, 3, off), L, True, True),
+                ("5 revisions", hc.gen_cfg(5, 5, 2, 0, 30, off), L, True, False)]
+        remote_every, pack_every = 12, 8
     else:
         plan = [("<=4 revisions, ghost", hc.gen_cfg(1, 4, 2, 1), L, True, True),
                 ("5 revisions", hc.gen_cfg(5, 5, 2, 0, 2, off), L, True, False),
